@@ -36,6 +36,8 @@ def cases(seed, tier):
         kind = ["surface", "surface", "surface", "volume", "polyline"][i % 5]
         out.append({"gen": kind, "seed": rng.randrange(2 ** 31), "nops": [1, 1, 2, 2, 3][(i // 5) % 5], "prequery": (i // 2) % 2 == 0,
                     "max_size": 3 if tier == "quick" else 5, "max_faces": 900 if tier == "quick" else 2500})
+    for i in range(40 if tier == "quick" else 800):
+        out.append({"gen": "error_in_block", "seed": rng.randrange(2 ** 31), "prequery": i % 2 == 0, "max_size": 3})
     for i in range(30 if tier == "quick" else 600):
         out.append({"gen": "ears", "seed": rng.randrange(2 ** 31), "prequery": i % 2 == 0, "max_size": 3 if tier == "quick" else 5})
     return out
@@ -586,9 +588,104 @@ def _ears_case(desc, ctx, rng):
     _input_object_surface(ctx, m, snap0, _snap_surface(r), "split_ears")
 
 
+def _error_in_block_case(desc, ctx, rng):
+    """An operation inside an editing block is asked for an element that does not exist and raises; the exception leaves the block.  The mesh
+    object that was passed in must then be unchanged or equal to the result of the operations that did succeed - never half-updated - and its
+    connectivity answers must describe its current containers."""
+    import mouette as M
+    volume = desc["seed"] % 3 == 0
+    n_ok = (desc["seed"] // 3) % 3 if not volume else (desc["seed"] // 3) % 2
+    if volume:
+        z = volumes.make(rng.randrange(2 ** 31), max_size=1)
+        V0, C0 = z["V"], z["C"]
+        ok, m = ctx.call("build", build.volume, V0, C0, monitor="result")
+        ok_ops = [[rng.choice(["cell_fan", "face_center"]), rng.randrange(10 ** 6)] for _ in range(n_ok)]
+        ctx.cls("error_in_block:volume:%d_ops_before" % n_ok)
+    else:
+        z = surfaces.make(rng.randrange(2 ** 31), max_size=desc["max_size"])
+        V0, F0 = z["V"], z["F"]
+        ok, m = ctx.call("build", build.surface, V0, F0, monitor="result")
+        ok_ops = [[rng.choice(["triangulate_face", "split_face_as_fan", "triangulate"]), rng.randrange(10 ** 6)] for _ in range(n_ok)]
+        ctx.cls("error_in_block:surface:%d_ops_before" % n_ok)
+    ctx.nontrivial(stable_hash(["error_in_block", volume, n_ok, desc["seed"]]))
+    if desc["prequery"]:
+        if volume:
+            ref0 = RefVolume(len(V0), C0)
+            for name, fn in volconn.script(volconn.probes(ref0, random.Random(1)), ref0):
+                ctx.call(name, fn, m, monitor="prequery", abort=False)
+        else:
+            S0 = surfconn.script(surfconn.probes(RefSurface(len(V0), F0), random.Random(1)))
+            surfconn.run_script(ctx, m, S0, list(range(len(S0))), monitor="prequery")
+    snap0 = _snap_volume(m) if volume else _snap_surface(m)
+    # what the successful operations alone give, on another object
+    if volume:
+        ok, mp = ctx.call("build", build.volume, V0, C0, monitor="result")
+        ok, rp = ctx.call("volume_block_prefix", _apply_volume_ops, ctx, mp, ok_ops, monitor="result")
+        snapr = _snap_volume(rp)
+    else:
+        ok, mp = ctx.call("build", build.surface, V0, F0, monitor="result")
+        ok, rp = ctx.call("surface_block_prefix", _apply_surface_ops, ctx, mp, ok_ops, monitor="result")
+        snapr = _snap_surface(rp)
+    raised = None
+    try:
+        if volume:
+            with M.mesh.VolumeSubdivision(m) as ed:
+                for op in ok_ops:
+                    if op[0] == "cell_fan":
+                        ed.split_cell_as_fan(op[1] % len(ed.mesh.cells))
+                    else:
+                        ed.split_tet_from_face_center(op[1] % len(ed.mesh.faces))
+                if desc["seed"] % 2:
+                    ed.split_cell_as_fan(len(ed.mesh.cells) + 5)
+                else:
+                    ed.split_tet_from_face_center(len(ed.mesh.faces) + 5)
+        else:
+            with M.mesh.SurfaceSubdivision(m) as ed:
+                for op in ok_ops:
+                    if op[0] == "triangulate":
+                        ed.triangulate()
+                    elif op[0] == "triangulate_face":
+                        ed.triangulate_face(op[1] % len(ed.mesh.faces))
+                    else:
+                        ed.split_face_as_fan(op[1] % len(ed.mesh.faces))
+                if desc["seed"] % 2:
+                    ed.split_face_as_fan(len(ed.mesh.faces) + 5)
+                else:
+                    ed.triangulate_face(len(ed.mesh.faces) + 5)
+    except Exception as e:
+        raised = type(e).__name__
+    if raised is None:
+        ctx.note("error_in_block:invalid_element_index_accepted")
+        return
+    ctx.note("error_in_block:raised_" + raised)
+    ctx.obs("input_state", "error_in_block")
+    if volume:
+        try:
+            now = _snap_volume(m)
+        except Exception as e:
+            ctx.violation("input_state", "error_in_block", "input_unreadable", "containers of the input object cannot be read after a block left by an exception: %s" % type(e).__name__)
+            return
+        if now != snap0 and now != snapr:
+            ctx.violation("input_state", "volume_block", "half_updated_after_exception", "after an editing block left by an exception the mesh object passed in is neither unchanged nor "
+                          "equal to the result of the operations that succeeded", differs_from_before=[k for k in now if now[k] != snap0[k]], equal_to_prefix_result=[k for k in now if now[k] == snapr[k]])
+            return
+        refn = RefVolume(len(now["V"]), now["C"])
+        Pn = volconn.probes(refn, random.Random(3))
+        Tn = {}
+        for name, fn in volconn.script(Pn, refn):
+            ok, ans = ctx.call(name, fn, m, monitor="input_conn", abort=False)
+            if ok:
+                Tn[name] = ans
+        volconn.verify(ctx, Tn, refn, now["F"], now["E"], Pn, True, monitor="input_conn")
+    else:
+        _input_object_surface(ctx, m, snap0, snapr, "error_in_block")
+
+
 def run_case(desc, ctx):
     rng = random.Random(desc["seed"])
-    if desc["gen"] == "ears":
+    if desc["gen"] == "error_in_block":
+        _error_in_block_case(desc, ctx, rng)
+    elif desc["gen"] == "ears":
         _ears_case(desc, ctx, rng)
     elif desc["gen"] == "surface":
         _surface_case(desc, ctx, rng)
